@@ -114,7 +114,11 @@ const FRAGS: &[&str] = &["a", "ab", "é", "🙂x", " ", "\t", "", "foo bar", "x 
 
 pub fn build(bytes: &[u8]) -> Case {
     let mut src = Src::new(bytes);
-    let nlines = src.weighted(&[2, 6, 6, 5, 4, 3, 2, 2, 1, 1]);
+    let mut nlines = src.weighted(&[2, 6, 6, 5, 4, 3, 2, 2, 1, 1]);
+    if src.chance(6) {
+        // occasionally a long file: line numbers with 2-3 digits
+        nlines = src.range(90, 400);
+    }
     let mut text = String::new();
     for i in 0..nlines {
         let nfr = src.weighted(&[3, 6, 5, 3, 2, 1]);
